@@ -871,10 +871,6 @@ class C19(Check):
                     break           # the same lifting / evaluation error would repeat for every input
         for mn, n in mncount.items():
             res.counters["cc-mn:%s:%s" % (arch, mn)] += n
-        if os.environ.get("C19_TIMING"):        # development aid only
-            import time
-            with open(os.environ["C19_TIMING"], "a") as f:
-                f.write("%s %s %s %s cpu=%.1f\n" % (arch, opt, tag, stratum, time.process_time()))
 
     # -- (im) ---------------------------------------------------------------------------------
     def run_im(self, res, tier, seed, shard, nshards):
